@@ -70,6 +70,9 @@ func fitnessFor(rule, epoch, i int, g *genetics.Genome) float64 {
 		return 0
 	case 4:
 		return 1.5
+	case 5:
+		// mixed signs (C09 allows any assignment with at least one positive value)
+		return float64((i*7+epoch)%13) - 4 + float64(i)*1e-4
 	}
 	return 1
 }
